@@ -160,10 +160,14 @@ cdef class LegacyRecordBatch:
             char* buf
         buf = <char*> self._buffer.buf
         while pos < buffer_len:
+            if buffer_len - pos < LOG_OVERHEAD:
+                raise CorruptRecordException("Corrupted compressed message")
             length = <Py_ssize_t> hton.unpack_int32(&buf[pos + LENGTH_OFFSET])
+            if length < 0 or length > buffer_len - pos - LOG_OVERHEAD:
+                raise CorruptRecordException("Corrupted compressed message")
             pos += LOG_OVERHEAD + length
-        if pos > buffer_len:
-            raise CorruptRecordException("Corrupted compressed message")
+        if pos == 0:
+            raise CorruptRecordException("Empty compressed message")
         pos -= LOG_OVERHEAD + length
         return hton.unpack_int64(&buf[pos])
 
@@ -171,7 +175,7 @@ cdef class LegacyRecordBatch:
             self, Py_ssize_t pos, Py_ssize_t size) except -1:
         """ Confirm that the slice is not outside buffer range
         """
-        if pos + size > self._buffer.len:
+        if size < 0 or size > self._buffer.len - pos:
             raise CorruptRecordException(
                 "Can't read {} bytes from pos {}".format(size, pos))
 
@@ -222,6 +226,7 @@ cdef class LegacyRecordBatch:
         else:
             key = None
         # Read value
+        self._check_bounds(pos, VALUE_LENGTH)
         read_size = <Py_ssize_t> hton.unpack_int32(&buf[pos])
         pos += VALUE_LENGTH
         if read_size != -1:
